@@ -408,6 +408,40 @@ def check(ctx):
                         ctx.ob("R6", f"Reminder.{m.name}::type{t}::days{days}", ok,
                                f"Reminder.{m.name} raises {why} for a reminder decoded from the wire (type byte {t}, {days} days; the decoder stores the type as {type(rec[0]).__name__ if not hasattr(rec[0], 'cls') else 'enum member'})", m.loc)
     ctx.floor("R6", "reminder member evaluations on decoded records", n_eval, 90)
+    # lookup by kind: GeckoReminders built by its own constructor on a model facade, fed through change_reminders with
+    # the decoded records of a spa that reports (a) nothing, (b) only other kinds, (c) the kind asked for
+    from ..facademodel import Rec, model_facade
+    gr = repo.cls("GeckoReminders")
+    look = repo.method("GeckoReminders", "get_reminder")
+    kinds = [EnumMember(tcls, nm, ex.value) for nm, ex in tcls.consts.items() if isinstance(ex, ast.Constant) and isinstance(ex.value, int) and ex.value != 0]
+    n_look = 0
+    for kind in kinds:
+        others = [k for k in kinds if k.value != kind.value]
+        for label, recs in (("empty-list", []), ("other-kinds-only", [(o, 5) for o in others[:2]]), ("present", [(others[0], 3), (kind, -2)])):
+            fac, _spa = model_facade(Rec(), {})
+            try:
+                interp.steps = 0
+                robj = interp.apply(ClassRef(gr), [fac], {})
+                interp.call(repo.method("GeckoReminders", "change_reminders"), robj, [list(recs)])
+            except (PyRaise, Undecided) as e:
+                raise AnalysisError(f"GeckoReminders(facade).change_reminders on the model facade: {e}")
+            try:
+                interp.steps = 0
+                got = interp.call(look, robj, [kind])
+                if label == "present":
+                    ok = got is not None and getattr(interp.getattr(got, "type"), "value", None) == kind.value and interp.getattr(got, "days") == -2
+                    why = f"returns {got!r}"
+                else:
+                    ok, why = got is None, f"returns {got!r}"
+            except PyRaise as e:
+                ok, why = False, f"raises {e.what}"
+            except Undecided as e:
+                raise AnalysisError(f"{look.qual}: {e}")
+            n_look += 1
+            ctx.ob("R6", f"{look.qual}::{label}", ok,
+                   f"{look.qual}({kind.name}) on a reminder list with {label.replace('-', ' ')} {why}: the lookup must give the reminder of that kind, or None when the spa reports none - never raise", look.loc,
+                   sample={"rule": "R6", "lookup": kind.name, "list": label} if kind is kinds[0] else None)
+    ctx.floor("R6", "reminder lookups interpreted", n_look, 15)
     # ---- R8 heater members are total: an out-of-label unit byte reads 'Unknown' (R4) and every read-only member of the
     # heater, built by its own constructor on a model spa, must still evaluate (with / without the flag items)
     ctx.rule("R8", "heater totality: with the unit item reading 'C', 'F' or 'Unknown' (any out-of-label byte) and every presence pattern of the heating / cooling flag items, every read-only member of GeckoWaterHeater evaluates without raising")
